@@ -572,6 +572,13 @@ class ExprMixin:
             # mapping-like opaque value
             f = uf('val_getitem', Val, Val, Val)
             return SDyn(f(base.t, self.to_val(key)))
+        if isinstance(base, SDictC):
+            k = z3.simplify(key.t) if isinstance(key, SStr) else None
+            if k is not None and z3.is_string_value(k):
+                if k.as_string() in base.d:
+                    return base.d[k.as_string()]
+                raise PyRaise('KeyError', ln, k.as_string())
+            raise Unsupported('symbolic key into a concrete dict')
         if isinstance(base, SNone):
             raise PyRaise('TypeError', ln, "'NoneType' object is not subscriptable")
         raise Unsupported(f'subscript of {base!r}')
@@ -604,6 +611,10 @@ class ExprMixin:
                 sh = rec.get('__shape__')
                 if self.specmode:
                     raise Unsupported(f'spec reads undeclared attribute {name}')
+                if sh is not None and getattr(sh, 'closed', False) and not self.specmode:
+                    # reads clause of the contract: the object's declared fields are all the function may depend on
+                    self.fail_path('frame', 'reads only the declared fields', ln, f'reads undeclared attribute {name} of {rec.get("__class__")}')
+                    raise PathEnd()
                 if sh is not None:
                     # the contract's shape does not describe this field: undecided, not an AttributeError
                     raise Unsupported(f'attribute {name} is not part of the contract shape of {rec.get("__class__")}')
@@ -665,7 +676,7 @@ class ExprMixin:
             return SInt(base.t)
         if isinstance(base, SDate) and name in ('year', 'month', 'day'):
             return self.date_part(base, name)
-        if isinstance(base, (SSeq, STuple, SStr, SSet, SInt, SDec, SDate, STd, SIter)):
+        if isinstance(base, (SSeq, STuple, SStr, SSet, SInt, SDec, SDate, STd, SIter, SDictC)):
             return SBuiltin('m.' + name, base)
         if isinstance(base, SBuiltin) and base.self_ is None and not base.name.startswith(('m.', 'spec.', 'dynmeth!', 'exc!')):
             return SBuiltin(f'{base.name}.{name}')
